@@ -9,6 +9,7 @@ import (
 	"io/ioutil"
 	"os"
 	"strings"
+	"time"
 	"syscall"
 
 	klogv1 "k8s.io/klog"
@@ -60,6 +61,7 @@ func main() {
 	klogv1.SetOutput(ioutil.Discard)
 
 	var s suite
+	marks := map[string]time.Time{}
 	sc := bufio.NewScanner(os.Stdin)
 	sc.Buffer(make([]byte, 1<<20), 1<<26)
 	for sc.Scan() {
@@ -75,6 +77,17 @@ func main() {
 			_, opts := parseOpts(toks[1:])
 			s = newSuite(*suiteName, opts)
 			emit("cfg ok")
+			continue
+		}
+		// wall-clock marks (every suite): `mark <name>`, `since <name>` -> elapsed milliseconds. Scripts whose
+		// verdict depends on real time (TTL cases) use them to tell a conclusive run from one that was starved of CPU.
+		if toks[0] == "mark" && len(toks) == 2 {
+			marks[toks[1]] = time.Now()
+			emit("mark %s", toks[1])
+			continue
+		}
+		if toks[0] == "since" && len(toks) == 2 {
+			emit("since %s %d", toks[1], time.Since(marks[toks[1]]).Milliseconds())
 			continue
 		}
 		if s == nil {
